@@ -17,7 +17,7 @@ RULE = ("all loop-free multigraphs (edge multiplicity <= 2, <= 7 edges) on <= 4 
         "BoolArray1D; one evaluation = one solve vs the definition; distinct by (graph, subset, form)")
 ASSUMPTIONS = ["z3 decides the posted aux-variable program correctly (SAT answers re-validated by M-SOLVE)"]
 REQUIRED = ["acyc.pointwise", "acyc.oracle.valid", "acyc.oracle.invalid", "acyc.parallel_edges", "acyc.accepted_set_solves",
-            "acyc.form.expr", "acyc.random", "msolve.model_checked"]
+            "acyc.form.expr", "acyc.random", "msolve.model_checked", "acyc.long_paths", "acyc.deep_spanning_trees"]
 
 
 def plan(tier):
@@ -93,6 +93,47 @@ def run(ctx):
         ctx.count("acyc.random")
         if k == 0:
             ctx.sample({"n": n, "edges": edges, "patterns": pats[:3]})
+    # long paths and deep trees: along a path the ranks of the encoding form a V, so half the path length must fit the rank range
+    for k in range(2 if not thorough else 30):
+        n = rng.randint(16, 30)
+        order = list(range(n))
+        rng.shuffle(order)
+        edges = [(order[i], order[i + 1]) for i in range(n - 1)] + [(order[-1], order[0])] + [tuple(rng.sample(range(n), 2)) for _ in range(2)]
+        edges = D.scramble(rng, edges)
+        g = D.mk_graph(n, edges)
+        on = {frozenset((order[i], order[i + 1])) for i in range(n - 1)}
+        path = tuple(1 if frozenset(e) in on else 0 for e in edges)
+        closed = tuple(1 if (frozenset(e) in on or frozenset(e) == frozenset((order[-1], order[0]))) else 0 for e in edges)
+        with ctx.guard(300):
+            D.pointwise(ctx, "acyc", len(edges), lambda s, act, g=g: graph.active_edges_acyclic(s, act, g),
+                        lambda p, n=n, edges=edges: G.is_forest(n, edges, p), [path, closed, tuple([1] * len(edges))], forms=("var",),
+                        desc={"n": n, "edges": [list(e) for e in edges]}, rng=rng)
+        ctx.count("acyc.long_paths")
+    for k in range(2 if not thorough else 30):
+        h, w = rng.choice([(4, 5), (5, 5), (5, 6), (6, 6)])
+        n, edges = h * w, D.scramble(rng, G.grid_edges(h, w))
+        g = D.mk_graph(n, edges)
+        # a snake-like spanning tree (DFS order) and the same plus one more edge
+        adj = G.adjacency(n, edges)
+        seen, tree, st = {0}, set(), [0]
+        while st:
+            v = st[-1]
+            nb = [u for u in adj[v] if u not in seen]
+            if not nb:
+                st.pop()
+                continue
+            u = rng.choice(nb)
+            seen.add(u)
+            tree.add(frozenset((v, u)))
+            st.append(u)
+        tp = tuple(1 if frozenset(e) in tree else 0 for e in edges)
+        plus = list(tp)
+        plus[tp.index(0)] = 1
+        with ctx.guard(300):
+            D.pointwise(ctx, "acyc", len(edges), lambda s, act, g=g: graph.active_edges_acyclic(s, act, g),
+                        lambda p, n=n, edges=edges: G.is_forest(n, edges, p), [tp, tuple(plus)], forms=("var",),
+                        desc={"grid_graph": [h, w], "n": n, "edges": [list(e) for e in edges]}, rng=rng)
+        ctx.count("acyc.deep_spanning_trees")
     msolve.uninstall()
 
 
